@@ -834,6 +834,10 @@ class Keyed:
         self.lim.counterexample(kind, key, *a, **kw)
 
 
+def smi_is_azolium(smi):
+    return smi in AZOLIUM
+
+
 def check_op(ck, lim, name, smi, make, renumber=True, fixed_corpus=False):
     """all oracles of one operation on one molecule; make() builds a fresh input molecule"""
     op = OPS[name]
@@ -980,7 +984,11 @@ def check_op(ck, lim, name, smi, make, renumber=True, fixed_corpus=False):
     # history independence: an object whose cached views were read before (str, hash, atoms_order, rings, components) behaves like a fresh
     # one: same result of the first and of the second application
     w = make()
+    if ck.tier == 'quick' and name not in ('standardize_charges', 'canonicalize', 'standardize', 'neutralize', 'fix_resonance') and not smi_is_azolium(smi):
+        w = None      # quick: the cached-object variant for the operations that read cached views; --thorough: every operation
     try:
+        if w is None:
+            raise ValueError
         str(w), hash(w), w.atoms_order, w.sssr, w.connected_components, w.aromatic_rings
         format(w, 'r')
     except Exception:
